@@ -28,6 +28,7 @@ Skeleton(f) ==
 C01Env ==
   /\ Check("compact_wellformed_namespace_valid_skeleton", Skeleton(Ev.c01.c))
   /\ Check("pretty_wellformed_namespace_valid_skeleton", Skeleton(Ev.c01.p))
+PlainDefaultClasses == {"p", "lt", "gt", "amp", "quot", "apos", "sp", "entity", "dollar", "astral", "rtl", "numref", "tag", "pi"}
 C06Env ==
   /\ Check("compact_parses", Ev.c01.c.parse_ok)
   /\ Check("text_recovered_from_its_place",
@@ -35,6 +36,10 @@ C06Env ==
   /\ Check("text_recovered_from_its_place_pretty",
            \A i \in 1..Len(Ev.channels) : Ev.channels[i].rec_p.k = "e" /\ SameData(Ev.channels[i].rec_p, Ev.channels[i].src))
   /\ Check("document_structure_independent_of_text", Ev.skeleton_same)
+  \* text with none of the documented expression markers (arithmetic operators, brackets, parentheses, braces, ${..}) is a
+  \* static default: it is the literal content of the instance node and adds no action element
+  /\ Check("plain_default_is_literal_instance_text",
+           (Ev.default_place # "n/a" /\ \A i \in 1..Len(Ev.classes) : Ev.classes[i] \in PlainDefaultClasses) => Ev.default_place = "instance")
 C15Env ==
   /\ Check("both_parse", Ev.c01.c.parse_ok /\ Ev.c01.p.parse_ok)
   /\ Check("same_elements_attributes_namespaces", Ev.structure_equal)
